@@ -5,7 +5,7 @@ pub use nom;
 use nom::branch::alt;
 use nom::bytes::complete::tag;
 use nom::character::complete::{alpha1, digit1, hex_digit1, multispace0, multispace1};
-use nom::combinator::{map, opt, recognize};
+use nom::combinator::{map, opt, recognize, verify};
 use nom::error::{ErrorKind, ParseError};
 use nom::multi::{many0, many1};
 use nom::sequence::{delimited, preceded, terminated, tuple};
@@ -371,7 +371,11 @@ fn sd_decl(input: &str) -> IResult<&str, bool> {
 pub fn element(input: &str) -> IResult<&str, model::Element<'_>> {
     alt((
         empty_entity_tag,
-        map(tuple((stag, content, etag)), |(s, c, _)| s.set_content(c)),
+        map(
+            // the name in the end-tag must match the element type in the start-tag
+            verify(tuple((stag, content, etag)), |(s, _, e)| s.name == *e),
+            |(s, c, _)| s.set_content(c),
+        ),
     ))(input)
 }
 
@@ -411,11 +415,8 @@ pub fn attribute(input: &str) -> IResult<&str, model::Attribute<'_>> {
 /// [\[42\] ETag](https://www.w3.org/TR/2008/REC-xml-20081126/#NT-ETag)
 ///
 /// [\[13\] ETag](https://www.w3.org/TR/2009/REC-xml-names-20091208/#NT-ETag)
-fn etag(input: &str) -> IResult<&str, ()> {
-    map(
-        delimited(tag("</"), qname, tuple((multispace0, tag(">")))),
-        |_| (),
-    )(input)
+fn etag(input: &str) -> IResult<&str, xml_nom::model::QName<'_>> {
+    delimited(tag("</"), qname, tuple((multispace0, tag(">"))))(input)
 }
 
 /// CharData? ((element | Reference | CDSect | PI | Comment) CharData?)*
